@@ -541,7 +541,11 @@ impl PreprocessorParser {
         has_key(old(context).macro_map@, l@) && has_elem(old(context).macro_nesting_counter@, l@)
             ==> r.is_err() && final(out).code@ == old(out).code@, //# C14,C13 macro.recursive_use_is_refused
         // the source position is frozen at this use only if no enclosing use froze it already, and released again
-        final(context).mapper.v_lock() == old(context).mapper.v_lock(), //# C16 macro.freeze_and_release_are_balanced
+        final(context).mapper.v_lock() == old(context).mapper.v_lock(), //# C16,C19 macro.freeze_and_release_are_balanced
+        // whatever goes wrong with this use -- unknown macro, recursion, an expansion that is not valid code -- the diagnostic is raised at
+        // the position of the USE in the text being parsed (never at a position inside the expanded body) and ends inside the use
+        r matches Err(ParseError::UnrecognizedToken { token, expected }) ==> token.0 == start && token.2 <= end && token.1.1@ == ""@ && expected@.len() == 1, //# C16,C13 macro.diagnostics_are_raised_at_the_position_of_the_use
+        (r matches Err(_)) ==> (r matches Err(ParseError::UnrecognizedToken { .. })),
         old(context).mapper.v_lock() > 0 ==> final(context).mapper.v_last() == old(context).mapper.v_last(), //# C16 macro.an_enclosing_use_keeps_its_position
         // the set of macros under expansion is restored whatever the expansion ended with
         final(context).macro_nesting_counter@ == old(context).macro_nesting_counter@, //# C19,C13 macro.expansion_set_is_restored
